@@ -437,6 +437,12 @@ example : ∀ op ∈ exOps, Op.WF op := by
   rcases h with rfl | rfl | rfl | rfl | rfl | rfl | rfl <;>
     first | exact Net.wf_newShort _ _ | trivial
 
+example : MapWF (denote exOps) := c09_keys_wf exOps (by
+  intro op h
+  simp only [exOps, List.mem_cons, List.not_mem_nil, or_false] at h
+  rcases h with rfl | rfl | rfl | rfl | rfl | rfl | rfl <;>
+    first | exact Net.wf_newShort _ _ | trivial)
+
 example : ∃ t, run exOps = .ok t ∧
     getRecipient t 0x01010102#32 = some 7 ∧       -- the /25 added last by text is most specific
     getRecipient t 0x01010181#32 = some 20 ∧      -- upper half: the replaced /24
